@@ -135,6 +135,15 @@ def run_desc(desc, make_monitors):
     objects (both monitored) and merge what was observed."""
     from . import harness
 
+    if desc.get("second_box") and desc.get("kind", "tree") != "minimize":
+        c1, c2 = harness.run_retarget_pair(desc, make_monitors)
+        res = run_result(c2, c2.desc)
+        res["cov"]["retargeted_configurations"] += 1
+        if not c2.aborted:
+            res["cov"]["retargeted_configurations_completed"] += 1
+        for v in res["violations"]:
+            v["detail"] = dict(v.get("detail", {}), tree_built_from_a_deep_copied_and_retargeted_configuration=True)
+        return res
     if desc.get("reuse") and desc.get("kind", "tree") != "minimize":
         c1, c2 = harness.run_reuse_pair(desc, make_monitors)
         res = run_result(c1, desc)
@@ -200,13 +209,24 @@ class C01(RunSpec):
         p["levels"] = [2, 2, 3, 1] if idx % 10 else [1]
         p["gscs"] = ["melimit", "evals"]
         if idx % 16 == 15:
-            p = {"kind": "minimize", "box": p["box"], "fams": p["fams"], "dim": (2, 5)}
+            p = {"kind": "minimize", "box": p["box"], "fams": p["fams"], "dim": (2, 5), "same_callable_two_boxes": bool((idx // 16) % 2)}
         return p
+
+    def make_case(self, seed, idx, tier):
+        d = super().make_case(seed, idx, tier)
+        if idx % 16 == 7 and d.get("kind") == "tree":
+            # a used configuration deep-copied and pointed at a problem over another box (see harness.run_retarget_pair)
+            rng = gen.case_rng(self.prop, seed, idx, "retarget")
+            sh = rng.choice([-0.6, -0.35, 0.35, 0.6])  # same scale, shifted: neither box contains the other
+            d["second_box"] = {"cls": d["box"]["cls"] + "-shifted", "bounds": [[b[0] + sh * (b[1] - b[0]), b[1] + sh * (b[1] - b[0])] for b in d["box"]["bounds"]]}
+            d["entry"] = "tree"
+        return d
 
     def floors(self, tier):
         fl = [(f"engine.{e}", 1, "engine of the quantifier on some level") for e in ROOT_ENGINES + CMA_ENGINES + LEAF_ONLY]
         fl += [(f"box.{b}", 1, "box class") for b in gen.BOX_CLASSES]
         fl += [("C01.on_face.LocalDeme metaepoch", 1, "a local search touched a face"), ("C01.evals_checked", 1000, "evaluations observed")]
+        fl += [("retargeted_configurations_completed", 2, "trees built from a deep-copied, re-targeted configuration"), ("minimize_after_same_callable_on_another_box", 1, "minimize() of a callable that was minimised over another box before")]
         return fl
 
 
@@ -228,6 +248,9 @@ class C02(RunSpec):
         p["fams"] = ["rastrigin", "funnel", "sphere", "absv", "plateau", "linear", "face"]
         p["levels"] = [2, 2, 3, 1]
         p["boxes"] = ["sym", "asym", "decimal", "mixed"]
+        if idx % 10 == 6:
+            # local searches that make no iteration at all (flat region), in both directions
+            p.update({"fams": ["plateau", "constant", "plateau"], "leaf": _cycle(["local", "local_maxiter"], idx // 10), "levels": [2, 3], "maximize": bool((idx // 10) % 2)})
         if idx % 8 == 7:
             p = {"kind": "minimize", "fams": p["fams"], "dim": (2, 4)}
         return p
@@ -582,6 +605,10 @@ class C07(RunSpec):
         p["levels"] = [2, 3, 3, 1]
         p["gscs"] = ["melimit", "evals"]
         p["entry"] = "tree"
+        if idx % 10 == 3:
+            # adaptive mutation (its step depends on the deme's own clock) on non-leaf levels, with hibernation and slots that free up
+            p.update({"n_levels": 3, "root": "sea_adapt", "inner": "sea_adapt", "hibernation": True, "level_limit": 2 + (idx // 10) % 2,
+                      "lscs": ["user", "melimit", "dontstop"], "gscs": ["melimit"], "sprout": _cycle(["simple", "nbc"], idx // 10), "fams": ["rastrigin", "funnel"]})
         return p
 
     def floors(self, tier):
@@ -652,6 +679,9 @@ class C09(RunSpec):
         p["lscs"] = ["dontstop", "melimit", "user"]
         p["level_limit"] = rng.randint(2, 4)
         p["fams"] = ["rastrigin", "funnel", "sphere", "linear"]
+        if idx % 6 == 2:
+            p["allow_nbc_k1"] = True  # truncation may keep a single individual: the mean nearest-better distance is then undefined
+            p["max_pop"] = 6
         if idx % 4 == 3:
             # three levels, several mid-level parents converging into the same basin: their candidates come close to
             # leaves sprouted by *other* parents, which is what the filter has to look at (whole target level)
@@ -668,6 +698,18 @@ class C09(RunSpec):
         d = super().make_case(seed, idx, tier)
         if d["gsc"]["k"] == "melimit":
             d["gsc"]["n"] = max(d["gsc"]["n"], 6)
+        if idx % 6 == 2 and idx % 4 != 3:
+            # truncation keeps exactly one individual of every (small) non-leaf population
+            for lv in d["levels"][:-1]:
+                if "pop" in lv:
+                    lv["pop"] = min(lv["pop"], 6)
+            if d["sprout"]["k"] == "nbc":
+                d["sprout"]["trunc"] = 0.3
+            elif d["sprout"]["k"] == "custom":
+                d["sprout"]["gen"] = {"k": "nbc", "df": 2.0, "trunc": 0.3}
+                d["sprout"]["dfilters"] = [{"k": "nbcfar", "f": 2.0, "ord": 2, "active": False}]
+            else:
+                d["sprout"] = {"k": "nbc", "gdf": 2.0, "trunc": 0.3, "fdf": 2.0, "ll": d["sprout"]["ll"]}
         if idx % 4 == 3:
             rmin = min(b[1] - b[0] for b in d["box"]["bounds"])
             d["gsc"] = {"k": "melimit", "n": 10}
@@ -685,6 +727,7 @@ class C09(RunSpec):
             ("C09.accepted.nbcfar", 1, "seed accepted by NBC_FarEnough"),
             ("C09.rejected.FarEnough", 1, "seed rejected by FarEnough"),
             ("C09.rejected.NBC_FarEnough", 1, "seed rejected by NBC_FarEnough"),
+            ("C09.nbc_mean_distance_not_finite", 1, "round in which truncation kept a single individual (undefined threshold)"),
         ]
         return fl
 
